@@ -20,6 +20,7 @@ pub enum CF {
     WrapU64 = 10,
     BigPause = 11,
     LongStuck = 12,
+    PinValue = 13,
 }
 
 pub const ALL_CF: [CF; 12] = [
@@ -53,11 +54,15 @@ impl CF {
             CF::WrapU64 => "wrap_u64",
             CF::BigPause => "big_pause",
             CF::LongStuck => "long_stuck",
+            CF::PinValue => "pin_value",
         }
     }
     pub fn from_u8(x: u8) -> Option<CF> {
         if x == CF::LongStuck as u8 {
             return Some(CF::LongStuck);
+        }
+        if x == CF::PinValue as u8 {
+            return Some(CF::PinValue);
         }
         ALL_CF.iter().copied().find(|c| *c as u8 == x)
     }
@@ -228,11 +233,57 @@ pub fn gen_clock(rng: &mut Prng, cfg: &ClockCfg) -> (ClockSpec, Vec<(u32, u8)>) 
                 readings.push(t);
                 i += 1;
             }
-            CF::WrapU64 | CF::LongStuck => unreachable!(),
+            CF::WrapU64 | CF::LongStuck | CF::PinValue => unreachable!(),
+        }
+    }
+    if rng.chance(1, 10) {
+        if let Some(k) = pin_special(rng, &mut readings, cfg.n) {
+            marks.push((k as u32, CF::PinValue as u8));
         }
     }
     let spec = ClockSpec { readings, tail_key: rng.u64(), fork_skews: Vec::new(), freeze: None };
     (spec, marks)
+}
+
+/// Readings that are special as VALUES (all ones, the sign boundaries, powers of two and their
+/// neighbours, small numbers): nothing documented depends on the value of a non-zero reading.
+pub const SPECIAL_READINGS: [u64; 14] = [
+    u64::MAX,
+    u64::MAX,
+    u64::MAX - 1,
+    1,
+    2,
+    1 << 63,
+    (1 << 63) - 1,
+    1 << 32,
+    (1 << 32) - 1,
+    1 << 31,
+    (1 << 31) - 1,
+    i64::MAX as u64 + 2,
+    0xFFFF_FFFF_0000_0000,
+    0x0000_0001_0000_0001,
+];
+
+/// Shifts the whole script by one constant so that the reading at a drawn index below `n` is exactly
+/// one of `SPECIAL_READINGS`. Every delta stays what it was; literal zero readings stay zero. Returns
+/// the index.
+pub fn pin_special(rng: &mut Prng, readings: &mut [u64], n: usize) -> Option<usize> {
+    let n = n.min(readings.len());
+    if n == 0 {
+        return None;
+    }
+    let k = rng.below(n as u64) as usize;
+    let v = *rng.pick(&SPECIAL_READINGS);
+    if readings[k] == 0 {
+        return None;
+    }
+    let shift = v.wrapping_sub(readings[k]);
+    for r in readings.iter_mut() {
+        if *r != 0 {
+            *r = r.wrapping_add(shift);
+        }
+    }
+    Some(k)
 }
 
 /// A swarm-style random subset of the fault catalogue.
